@@ -1033,7 +1033,14 @@ class EventBus:
         # Use handler id as key to preserve all handlers even with duplicate names
         filtered_handlers: dict[PythonIdStr, EventHandler] = {}
         for handler in applicable_handlers:
-            if self._would_create_loop(event, handler):
+            try:
+                would_create_loop = self._would_create_loop(event, handler)
+            except RuntimeError as e:
+                # The recursion guard refused this handler: record that as the handler's error result instead of
+                # letting it escape into the run loop, which would leave the event unprocessed and never completed
+                event.event_result_update(handler=handler, eventbus=self, error=e)
+                continue
+            if would_create_loop:
                 continue
             else:
                 handler_id = get_handler_id(handler, self)
